@@ -3,6 +3,9 @@
 package main
 
 import (
+	"servitor/object"
+	"encoding/json"
+	"os"
 	"strconv"
 	"strings"
 	"sync"
@@ -95,6 +98,24 @@ func (l *uiList) Harvest(q uint, start uint) ([]pub.Tangible, pub.Container, uin
 		return append([]pub.Tangible{}, l.items[start:]...), nil, 0
 	}
 	return append([]pub.Tangible{}, l.items[start:end]...), l, end
+}
+
+// plainName drops SGR sequences from a Name()
+func plainName(s string) string {
+	var b strings.Builder
+	rs := []rune(s)
+	for i := 0; i < len(rs); i++ {
+		if rs[i] == 0x1b && i+1 < len(rs) && rs[i+1] == '[' {
+			j := i + 2
+			for j < len(rs) && rs[j] != 'm' {
+				j++
+			}
+			i = j
+			continue
+		}
+		b.WriteRune(rs[i])
+	}
+	return b.String()
 }
 
 func itoa3(i int) string {
@@ -232,6 +253,198 @@ func init() {
 		mu.Lock()
 		defer mu.Unlock()
 		return []int{unlocked, overlaps, stuck, frames}
+	})
+	// uipub: the UI over REAL pub items built from one JSON document (everything embedded, nothing fetched): posts titled
+	// "p<N>", actors named "a<N>", activities around them.  args: preload, width, height, json text, constructor
+	// (0 post, 1 actor, 2 activity), then the abstract world (read by the model only) ..., keys.
+	// result per token: mode, buffer, page id, item code (post 1000+N, actor 2000+N, activity 2000 + its target's code,
+	// failure 999), lower, upper, loadingUp, loadingDown, frames so far, lines of last frame, "" (frames hold clock- and
+	// library-made text: not compared), the link the media hook received since the previous token ("" if it did not run)
+	register("uipub", func(a []int) []int {
+		r := &reader{toks: a}
+		preload := r.next()
+		width := r.next()
+		height := r.next()
+		doc := r.text()
+		ctor := r.next()
+		// skip the abstract world
+		n := r.next()
+		for i := 0; i < n; i++ {
+			r.next()
+			r.next()
+			nl := r.next()
+			for j := 0; j < nl; j++ {
+				r.text()
+			}
+			for k := 0; k < 2; k++ {
+				if f := r.next(); f >= 0 {
+					for j := 0; j < f; j++ {
+						r.next()
+					}
+				}
+			}
+			r.next()
+			for k := 0; k < 3; k++ {
+				if r.next() != 0 {
+					r.text()
+				}
+			}
+		}
+		r.next() // root id
+		feeds := map[string][]string{}
+		nf := r.next()
+		for i := 0; i < nf; i++ {
+			name := r.text()
+			ni := r.next()
+			in := []string{}
+			for j := 0; j < ni; j++ {
+				in = append(in, r.text())
+			}
+			feeds[name] = in
+		}
+		var m map[string]any
+		if err := json.NewDecoder(strings.NewReader(doc)).Decode(&m); err != nil || m == nil {
+			return []int{-1}
+		}
+		var root pub.Tangible
+		var err error
+		switch ctor {
+		case 0:
+			root, err = pub.NewPostFromObject(object.Object(m), nil)
+		case 1:
+			root, err = pub.NewActorFromObject(object.Object(m), nil)
+		default:
+			root, err = pub.NewActivityFromObject(object.Object(m), nil)
+		}
+		if err != nil {
+			return []int{-2}
+		}
+		savedCtx, savedFeeds := config.Parsed.Network.Context, config.Parsed.Feeds
+		config.Parsed.Network.Context = preload
+		config.Parsed.Feeds = feeds
+		defer func() { config.Parsed.Network.Context, config.Parsed.Feeds = savedCtx, savedFeeds }()
+		dumpFile := os.Getenv("VERIF_DUMP_FILE")
+		os.Remove(dumpFile)
+
+		var fmu sync.Mutex
+		frames, lastLines := 0, 0
+		s := ui.NewState(width, height, func(f string) {
+			fmu.Lock()
+			frames++
+			lastLines = strings.Count(f, "\n") + 1
+			fmu.Unlock()
+		})
+		pageIDs := map[any]int{}
+		number := func(name string, prefix byte) int {
+			name = plainName(name)
+			if len(name) < 2 || name[0] != prefix {
+				return -1
+			}
+			v := 0
+			i := 1
+			for i < len(name) && name[i] >= '0' && name[i] <= '9' {
+				v = v*10 + int(name[i]-'0')
+				i++
+			}
+			if i == 1 {
+				return -1
+			}
+			return v
+		}
+		var code func(t pub.Tangible) int
+		code = func(t pub.Tangible) int {
+			switch x := t.(type) {
+			case nil:
+				return -1
+			case *pub.Post:
+				if v := number(x.Name(), 'p'); v >= 0 {
+					return 1000 + v
+				}
+			case *pub.Actor:
+				if v := number(x.Name(), 'a'); v >= 0 {
+					return 2000 + v
+				}
+			case *pub.Activity:
+				if c := code(x.Target()); c >= 1000 {
+					return 2000 + c
+				}
+			case *pub.Failure:
+				return 999
+			}
+			return 998
+		}
+		quiesce := func() ui.VerifSnapshot {
+			deadline := time.Now().Add(15 * time.Second)
+			stable := 0
+			var snap ui.VerifSnapshot
+			for time.Now().Before(deadline) {
+				snap = s.VerifSnap()
+				busy := snap.Mode == ui.VerifLoading || snap.Mode == ui.VerifOpening || snap.LoadingUp || snap.LoadingDown || s.VerifAnyLoading()
+				if !busy {
+					stable++
+					if stable >= 3 {
+						return snap
+					}
+				} else {
+					stable = 0
+				}
+				time.Sleep(time.Millisecond)
+			}
+			return snap
+		}
+		out := []int{}
+		observe := func() {
+			snap := quiesce()
+			fmu.Lock()
+			fr, ll := frames, lastLines
+			fmu.Unlock()
+			pid := -1
+			if key := s.VerifPageKey(); key != nil {
+				if id, ok := pageIDs[key]; ok {
+					pid = id
+				} else {
+					pid = len(pageIDs)
+					pageIDs[key] = pid
+				}
+			}
+			out = append(out, snap.Mode)
+			out = putText(out, snap.Buffer)
+			out = append(out, pid, code(snap.Current), snap.Lower, snap.Upper, b2i(snap.LoadingUp), b2i(snap.LoadingDown), fr, ll)
+			out = putText(out, "")
+			// what the hook program recorded: argc, argv..., stdin; the configured hook is ["vdump", "%url"]
+			hooked := ""
+			if raw, err := os.ReadFile(dumpFile); err == nil {
+				os.Remove(dumpFile)
+				toks := strings.Fields(string(raw))
+				vals := make([]int, len(toks))
+				for i, t := range toks {
+					vals[i], _ = strconv.Atoi(t)
+				}
+				rr := &reader{toks: vals}
+				if argc := rr.next(); argc == 2 {
+					rr.text()
+					hooked = rr.text()
+				} else {
+					hooked = "unexpected argc " + strconv.Itoa(argc)
+				}
+			}
+			out = putText(out, hooked)
+		}
+		s.VerifOpen(root)
+		observe()
+		for r.more() {
+			k := r.next()
+			switch {
+			case k < 256:
+				s.Update(byte(k))
+			case k == 258:
+				w := r.next()
+				h := r.next()
+				s.SetWidthHeight(w, h)
+			}
+			observe()
+		}
+		return out
 	})
 	// args: preload, width, height, nitems, per item: parent(-1) nkids kids... nlinks links..., root item id,
 	//       nfeeds (name, ninputs inputs...), keys...
